@@ -112,7 +112,7 @@ def stepOp (d : Drv) (x : Sexp) : Option Drv :=
     let t ← t.nat?
     let d' := ap d (.cbBegin t)
     let tok := if d'.s.inCb t && !d.s.inCb t then
-                 match (cbList d.s t)[d.s.idx t]? with
+                 match (iterList current d.s t)[d.s.idx t]? with
                  | some (c, a) => s!"b:{c}:{a}"
                  | none => "b:none"
                else if d'.s.phase t == .done && d.s.phase t != .done then "b:abort" else "b:none"
@@ -123,14 +123,15 @@ def stepOp (d : Drv) (x : Sexp) : Option Drv :=
     pure ((ap d (.cbEnd t r)).emit1 (if d.s.inCb t then "f:ok" else "f:bad"))
   | .list [.atom "cl", t] => do
     let t ← t.nat?
-    -- the final `next()` of the iterator (RuntimeError when the dict was resized) has no marker of its own
-    let d1 := if d.s.phase t == .finalizing && !d.s.inCb t && loopPending d.s t then ap d (.cbBegin t) else d
-    let bad := d1.s.phase t == .finalizing && (d1.s.inCb t || loopPending d1.s t)
+    -- (pre-fix shape only) the final `next()` of a live-dict iterator has no marker of its own
+    let d1 := if d.s.phase t == .finalizing && !d.s.inCb t && loopPending current d.s t then ap d (.cbBegin t) else d
+    let bad := d1.s.phase t == .finalizing && (d1.s.inCb t || loopPending current d1.s t)
     let d2 := ap d1 (.cleanup t)
     let m := if bad then "x:bad" else s!"x:{showRes (d2.s.result t)}:ran={showCbs (ranOf d2.s t)}"
-    -- the statement does not say what happens to callbacks (re-)registered while the finally already runs
-    let want := if d2.s.touched t then ranOf d2.s t else specRan d2.s t
-    let sp := s!"x:{showRes (some (specResult d2.s t))}:ran={showCbs want}"
+    -- a task cancelled inside one of its done-callbacks ends as cancelled; the callbacks not yet started are skipped
+    let want := if (d2.s.bailed t).isSome then ranOf d2.s t else specRan d2.s t
+    let wres := match d2.s.bailed t with | some r => r | none => specResult d2.s t
+    let sp := s!"x:{showRes (some wres)}:ran={showCbs want}"
     pure (d2.emit m sp)
   | .list [.atom "snap"] =>
     pure (d.emit (snapOf d fun _ => true) (snapOf d fun t => !(d.s.phase t == .done)))
